@@ -74,6 +74,27 @@ Theorem C08_from_bbox_resolution :
 Proof. exact from_bbox_resolution. Qed.
 Print Assumptions C08_from_bbox_resolution.
 
+(** ... and the pixel count is minimal (0 <= tol <= 1/2): per axis, a snapped grid
+    cannot start one pixel later nor (with >= 2 pixels) end one pixel earlier and
+    still cover the box up to [tol] pixel; a floating grid with >= 2 pixels cannot
+    drop its last pixel *)
+Theorem C08_from_bbox_resolution_minimal :
+  forall (b : bbox) (tight : bool) (shape : shape_in) (rr : some_res) (anchor : anchor_in) (tol : Q) ny nx A,
+    match shape with ShScalar _ => False | _ => True end ->
+    ~ fst (res_xy rr) == 0 -> ~ snd (res_xy rr) == 0 -> 0 <= tol -> tol <= 1#2 ->
+    from_bbox b tight shape (Some rr) anchor tol = Ok ((ny, nx), A) ->
+    let minimal x0 x1 rs (o : option Q) tx (n : Z) :=
+      match o with
+      | Some _ =>
+          x0 + tol * Qabs rs <= grid_lo rs tx n + Qabs rs /\
+          ((2 <= n)%Z -> grid_lo rs tx n + inject_Z n * Qabs rs - Qabs rs <= x1 - tol * Qabs rs)
+      | None => (2 <= n)%Z -> (inject_Z n - 1) * Qabs rs <= x1 - x0 - tol * Qabs rs
+      end in
+    minimal (bl b) (br b) (fst (res_xy rr)) (option_map fst (snap_of tight anchor)) (ac A) nx /\
+    minimal (bb b) (bt b) (snd (res_xy rr)) (option_map snd (snap_of tight anchor)) (af A) ny.
+Proof. exact from_bbox_resolution_minimal. Qed.
+Print Assumptions C08_from_bbox_resolution_minimal.
+
 (** ** shape-driven: exactly the requested shape, pixel size = span / shape,
     no displacement when floating, displacement below one pixel and edges on the
     anchor when snapping *)
